@@ -89,3 +89,10 @@ func Concerns(f report.Finding, prop string) bool {
 	}
 	return false
 }
+
+// PropsOf returns the property restriction of a finding (nil = all properties of its rule).
+func PropsOf(f report.Finding) []string {
+	fpMu.Lock()
+	defer fpMu.Unlock()
+	return findingProps[f.Key()]
+}
